@@ -196,60 +196,91 @@ theorem txRoot_noReturn (env : Env) (init : Side) (pre : List Req) (r : TReq)
   · exact h
   · exact absurd h hq.1
 
-/-- C17_belief under the two hypotheses -/
-theorem agree_exec (env : Env) (init : Side) (h : List Req) (hl : NoLateFail env h)
-    (hf : ∀ σ, FalsyOK env σ h) (w : Nat) : Agree (exec env (initState init) h w) :=
-  fun σ => agreeAt_exec env σ h _ (agreeAt_init init σ) hl (hf σ) w
+/-- C17_belief: only status 2 can break "belief ⇒ actual" -/
+theorem agree_exec (env : Env) (init : Side) (h : List Req) (hl : NoStatus2 h) (w : Nat) :
+    Agree (exec env (initState init) h w) :=
+  fun σ => agreeAt_exec env σ h _ (agreeAt_init init σ) hl w
 
 theorem safe_of_agree (ws : WState) (r : CReq) (h : Agree ws) : Safe ws r :=
   fun _ p _ hbel => h p.1 p.2 hbel
 
-theorem used_strict (env : Env) (init : Side) (pre : List Req) (r : CReq)
-    (hl : NoLateFail env pre) (hf : ∀ σ, FalsyOK env σ pre) :
+theorem used_noStatus2 (env : Env) (init : Side) (pre : List Req) (r : CReq)
+    (hl : NoStatus2 pre) :
     (stepCompile env (exec env (initState init) pre) r).2.usedSupplied r := by
   intro u hu
-  exact (compile_used_exact env _ r u hu).2 (safe_of_agree _ r (agree_exec env init pre hl hf r.w))
+  exact (compile_used_exact env _ r u hu).2 (safe_of_agree _ r (agree_exec env init pre hl r.w))
 
-theorem txRoot_strict (env : Env) (init : Side) (pre : List Req) (r : TReq)
-    (hl : NoLateFail env pre) (hf : FalsyOK env (.schema r.db) pre) :
+theorem txRoot_noStatus2 (env : Env) (init : Side) (pre : List Req) (r : TReq)
+    (hl : NoStatus2 pre) :
     (stepTx env (exec env (initState init) pre) r).2.usedRoot r := by
   apply txRoot_of
-  exact agreeAt_exec env _ pre _ (agreeAt_init init _) hl hf r.w _
+  exact agreeAt_exec env _ pre _ (agreeAt_init init _) hl r.w _
 
-/-- C17_intx -/
-theorem intx (env : Env) (init : Side) (pre : List Req) (r : TReq) (hs : NoStateLoss pre) :
-    (stepTx env (exec env (initState init) pre) r).2.usedState r := by
-  have hla := lastAgree_exec env pre (initState init) (fun _ => rfl) hs r.w
+theorem lastLe_init (s : Side) (i : Nat) : LastLe (initState s i) := by
+  intro x hx; simp [initState] at hx
+
+/-- with `LastLe`, a transaction that supplies a (non-`None`) state runs on it -/
+theorem usedState_of_lastLe (env : Env) (st : State) (r : TReq) (h : LastLe (st r.w))
+    (hp : r.pstate ≠ none) : (stepTx env st r).2.usedState r := by
   intro u hu
-  have hp := stepTx_used env _ r u hu
-  rcases wtxPrepare_ok env _ r _ u hp with ⟨h1, h2, _⟩ | ⟨_, h2, _⟩ | ⟨_, h2, _⟩
-  · rw [← (txSend_reuse _ r).1 h1, hla, h2]
+  have hpq := stepTx_used env _ r u hu
+  rcases wtxPrepare_ok env _ r _ u hpq with ⟨h1, h2, _⟩ | ⟨_, h2, _⟩ | ⟨_, h2, _⟩
+  · have hb := (txSend_reuse _ r).1 h1
+    cases hps : r.pstate with
+    | none => exact absurd hps hp
+    | some p =>
+      rw [hps] at hb
+      have := h p hb
+      rw [h2] at this
+      exact this
   · exact h2.symm
   · exact h2.symm
+
+/-- C17_intx: every history -/
+theorem intx (env : Env) (init : Side) (pre : List Req) (r : TReq) (hp : r.pstate ≠ none) :
+    (stepTx env (exec env (initState init) pre) r).2.usedState r :=
+  usedState_of_lastLe env _ r (lastLe_exec env pre _ (lastLe_init init) r.w) hp
 
 /-- the REUSE marker goes only to a worker whose `LAST_STATE` is the supplied state -/
 theorem reuse_only_to_holder (env : Env) (init : Side) (pre : List Req) (r : TReq)
-    (hs : NoStateLoss pre)
+    (hp : r.pstate ≠ none)
     (h : (stepTx env (exec env (initState init) pre) r).2.send = .reuse) :
     (exec env (initState init) pre r.w).act.last = r.pstate := by
-  have hla := lastAgree_exec env pre (initState init) (fun _ => rfl) hs r.w
   rw [stepTx_send] at h
-  rw [← hla]; exact (txSend_reuse _ r).1 h
+  have hb := (txSend_reuse _ r).1 h
+  cases hps : r.pstate with
+  | none => exact absurd hps hp
+  | some p =>
+    rw [hps] at hb
+    exact lastLe_exec env pre _ (lastLe_init init) r.w p hb
 
 /-! ### unconditional facts -/
 
-/-- a request that ends in `FailedStateSync` leaves every belief untouched -/
-theorem syncFail_keeps_belief (env : Env) (st : State) (r : CReq)
+/-- a request that ends in `FailedStateSync` changes no believed slot and leaves
+    every worker process exactly as it was -/
+theorem syncFail_changes_nothing (env : Env) (st : State) (r : CReq)
     (h : (stepCompile env st r).2.res = .syncFail) (i : Nat) :
-    ((stepCompile env st r).1 i).bel = (st i).bel := by
+    (∀ σ, ((stepCompile env st r).1 i).bel.get σ = (st i).bel.get σ) ∧
+      ((stepCompile env st r).1 i).act = (st i).act := by
   by_cases hi : i = r.w
-  case neg => rw [stepCompile_frame env st r i hi]
+  case neg => rw [stepCompile_frame env st r i hi]; exact ⟨fun _ => rfl, rfl⟩
   subst hi
   cases hW : (wsync env (st r.w).act r.db (preargs (st r.w).bel r)).2 with
-  | none => exact (stepCompile_bel_fail env st r hW).1
+  | none =>
+    refine ⟨(stepCompile_bel_fail env st r hW).1, ?_⟩
+    have hc := wsync_fail_clean env _ _ _ hW
+    revert hW hc
+    unfold stepCompile
+    simp only []
+    generalize wsync env (st r.w).act r.db (preargs (st r.w).bel r) = W
+    obtain ⟨a', sres⟩ := W
+    intro hW hc
+    simp only [] at hW hc
+    subst hW hc
+    simp
   | some d =>
     exfalso
-    obtain ⟨b', hb'⟩ := withAck_defined env (st r.w).bel r
+    obtain ⟨b', hb'⟩ := withAck_defined (st r.w).bel r
     revert h hW
     unfold stepCompile
     simp only []
@@ -264,7 +295,7 @@ theorem syncFail_keeps_belief (env : Env) (st : State) (r : CReq)
 /-- the `assert`s of `sync_worker_state_cb` never fire -/
 theorem no_cbAssert (env : Env) (st : State) (r : CReq) :
     (stepCompile env st r).2.res ≠ .cbAssert := by
-  obtain ⟨b', hb'⟩ := withAck_defined env (st r.w).bel r
+  obtain ⟨b', hb'⟩ := withAck_defined (st r.w).bel r
   unfold stepCompile
   simp only []
   generalize wsync env (st r.w).act r.db (preargs (st r.w).bel r) = W
